@@ -280,6 +280,50 @@ func aggPackages(tier string) []agg {
 			out = append(out, agg{Name: fmt.Sprintf("g%03d_%s_%s", id, pat, lay), Files: files, Good: good, Bad: bad})
 		}
 	}
+	// a generated definition (struct-to-interface conversion) needed by a bad declaration first and by a good one later:
+	// the good one must keep it under -ignore-errors
+	convHead := "type I interface {\n\tm(k uint64) uint64\n}\n\ntype St struct {\n\tv uint64\n}\n\nfunc (s St) m(k uint64) uint64 {\n\treturn s.v + k\n}\n\nfunc use(i I) uint64 {\n\treturn i.m(1)\n}\n"
+	convBad := func(i int) (string, string) {
+		n := fmt.Sprintf("Bad%d", i)
+		return n, fmt.Sprintf("func %s(x uint64) uint64 {\n\tswitch x {\n\tcase 1:\n\t\treturn use(St{v: 2})\n\t}\n\treturn use(St{v: x})\n}\n", n)
+	}
+	convGood := func(i int) (string, string) {
+		n := fmt.Sprintf("Good%d", i)
+		return n, fmt.Sprintf("func %s(x uint64) uint64 {\n\treturn use(St{v: x + %d})\n}\n", n, i)
+	}
+	for _, pat := range []string{"BG", "GB", "BGB", "BBG"} {
+		for _, lay := range []string{"one", "split"} {
+			var sb, sb2 strings.Builder
+			sb.WriteString("package q\n\n" + convHead + "\n")
+			sb2.WriteString("package q\n\n")
+			var good, bad []string
+			good = append(good, "I", "St", "St__m", "use", "St__to__I")
+			gi, bi := 0, 0
+			for k, ch := range pat {
+				var n, c string
+				if ch == 'G' {
+					n, c = convGood(gi)
+					gi++
+					good = append(good, n)
+				} else {
+					n, c = convBad(bi)
+					bi++
+					bad = append(bad, n)
+				}
+				if lay == "split" && k > 0 {
+					sb2.WriteString(c + "\n")
+				} else {
+					sb.WriteString(c + "\n")
+				}
+			}
+			files := map[string]string{"a.go": sb.String()}
+			if lay == "split" {
+				files["b.go"] = sb2.String()
+			}
+			id++
+			out = append(out, agg{Name: fmt.Sprintf("g%03d_conv%s_%s", id, pat, lay), Files: files, Good: good, Bad: bad})
+		}
+	}
 	return out
 }
 
@@ -382,6 +426,21 @@ func checkAgg(goose, mod, work string, a agg) (kind, msg string) {
 	if strings.Join(got, ",") != strings.Join(want, ",") {
 		return "partial-output-declarations", fmt.Sprintf("partial output defines %v, the declarations that translate are %v", got, want)
 	}
+	// what the partial file defines must be closed: no body may mention a definition of the full package that is missing here
+	defined := map[string]bool{}
+	for _, n := range f.Order {
+		defined[n] = true
+	}
+	for _, snt := range f.Sentences {
+		if snt.Body == nil {
+			continue
+		}
+		for _, id := range gl.FreeGlobals(snt.Body) {
+			if strings.Contains(id, "__to__") && !defined[id] {
+				return "partial-output-dangling", fmt.Sprintf("under -ignore-errors %s mentions %s, which the partial file does not define", snt.Name, id)
+			}
+		}
+	}
 	return "", ""
 }
 
@@ -427,13 +486,17 @@ func part2(tier, goose, work string, acc *ev.Acc, only string) {
 	}
 	// packages at the edge (accepted today, candidates for new checks): whatever goose says must be structured
 	shapes := map[string]string{
-		"two_inits":          "package q\n\nvar G uint64 = 1\n\nfunc init() {\n\tuse()\n}\n\nfunc init() {\n\tuse()\n\tuse()\n}\n\nfunc use() uint64 {\n\treturn G\n}\n",
-		"mangling_clash":     "package q\n\ntype A struct {\n\tv uint64\n}\n\nfunc (a A) b__c(k uint64) uint64 {\n\treturn a.v + k\n}\n\ntype A__b struct {\n\tv uint64\n}\n\nfunc (a A__b) c(k uint64) uint64 {\n\treturn a.v + k + 1\n}\n",
-		"method_vs_func":     "package q\n\ntype T struct {\n\tv uint64\n}\n\nfunc (t T) M(k uint64) uint64 {\n\treturn t.v + k\n}\n\nfunc T__M(k uint64) uint64 {\n\treturn k\n}\n",
-		"two_blank_vars":     "package q\n\nvar _ uint64 = 1\n\nvar _ uint64 = 2\n\nfunc F() uint64 {\n\treturn 3\n}\n",
-		"two_blank_funcs":    "package q\n\nfunc _() uint64 {\n\treturn 1\n}\n\nfunc _() uint64 {\n\treturn 2\n}\n\nfunc F() uint64 {\n\treturn 3\n}\n",
-		"const_and_func":     "package q\n\nconst K uint64 = 1\n\nfunc F() uint64 {\n\treturn K\n}\n\ntype K2 struct {\n\tv uint64\n}\n\nfunc K2__get() uint64 {\n\treturn 2\n}\n\nfunc (k K2) get() uint64 {\n\treturn k.v\n}\n",
-		"same_bad_two_files": "",
+		"two_inits":                 "package q\n\nvar G uint64 = 1\n\nfunc init() {\n\tuse()\n}\n\nfunc init() {\n\tuse()\n\tuse()\n}\n\nfunc use() uint64 {\n\treturn G\n}\n",
+		"mangling_clash":            "package q\n\ntype A struct {\n\tv uint64\n}\n\nfunc (a A) b__c(k uint64) uint64 {\n\treturn a.v + k\n}\n\ntype A__b struct {\n\tv uint64\n}\n\nfunc (a A__b) c(k uint64) uint64 {\n\treturn a.v + k + 1\n}\n",
+		"method_vs_func":            "package q\n\ntype T struct {\n\tv uint64\n}\n\nfunc (t T) M(k uint64) uint64 {\n\treturn t.v + k\n}\n\nfunc T__M(k uint64) uint64 {\n\treturn k\n}\n",
+		"two_blank_vars":            "package q\n\nvar _ uint64 = 1\n\nvar _ uint64 = 2\n\nfunc F() uint64 {\n\treturn 3\n}\n",
+		"two_blank_funcs":           "package q\n\nfunc _() uint64 {\n\treturn 1\n}\n\nfunc _() uint64 {\n\treturn 2\n}\n\nfunc F() uint64 {\n\treturn 3\n}\n",
+		"const_and_func":            "package q\n\nconst K uint64 = 1\n\nfunc F() uint64 {\n\treturn K\n}\n\ntype K2 struct {\n\tv uint64\n}\n\nfunc K2__get() uint64 {\n\treturn 2\n}\n\nfunc (k K2) get() uint64 {\n\treturn k.v\n}\n",
+		"mutual_recursion_plus_bad": "package q\n\nfunc IsEven(n uint64) bool {\n\tif n == 0 {\n\t\treturn true\n\t}\n\treturn IsOdd(n - 1)\n}\n\nfunc IsOdd(n uint64) bool {\n\tif n == 0 {\n\t\treturn false\n\t}\n\treturn IsEven(n - 1)\n}\n\nfunc Bad(x uint64) uint64 {\n" + badBodies[0] + "}\n",
+		"mutual_recursion_methods":  "package q\n\ntype T struct {\n\tv uint64\n}\n\nfunc (t *T) A(n uint64) uint64 {\n\tif n == 0 {\n\t\treturn t.v\n\t}\n\treturn t.B(n - 1)\n}\n\nfunc (t *T) B(n uint64) uint64 {\n\tif n == 0 {\n\t\treturn 1\n\t}\n\treturn t.A(n - 1)\n}\n",
+		"recursive_types":           "package q\n\ntype Node struct {\n\tnext *Node\n\tval  uint64\n}\n\ntype A struct {\n\tb *B\n}\n\ntype B struct {\n\ta *A\n}\n\nfunc Len(n *Node) uint64 {\n\tif n == nil {\n\t\treturn 0\n\t}\n\treturn Len(n.next) + 1\n}\n",
+		"three_cycle":               "package q\n\nfunc F1(n uint64) uint64 {\n\tif n == 0 {\n\t\treturn 1\n\t}\n\treturn F2(n - 1)\n}\n\nfunc F2(n uint64) uint64 {\n\tif n == 0 {\n\t\treturn 2\n\t}\n\treturn F3(n - 1)\n}\n\nfunc F3(n uint64) uint64 {\n\tif n == 0 {\n\t\treturn 3\n\t}\n\treturn F1(n - 1)\n}\n",
+		"same_bad_two_files":        "",
 	}
 	var shapeNames []string
 	for n := range shapes {
